@@ -4,6 +4,7 @@ Oracle: lexical-scope model (Appendix A.6) over 1..4 files: every definition sit
 `.2byte <ref>` identify the definition used.  Each program has at most one possibly-illegal site so a rejection is
 attributable.  Probe: `labels` (which scope object answered each lookup).
 """
+import json
 from vf import core, isa as isamod, gen_prog
 from vf.model import layout
 
@@ -159,7 +160,8 @@ class C06(core.Check):
         'label-not-first-on-its-line/global', 'label-not-first-on-its-line/local', 'label-not-first-on-its-line/file',
         'reference-inside:indirect-numeric', 'reference-inside:deferred-numeric', 'reference-inside:indexed-register',
         'reference-inside:indirect-indexed-register', 'reference-inside:indirect-register-offset',
-        'local-inside-operand-form-with-same-named-global', 'no-image-asked-for', 'illegal:undefined/name-that-nearly-reads-as-a-number', 'predefined-data-name-in-a-constant', 'predefined-data-name-in-an-origin']}
+        'local-inside-operand-form-with-same-named-global', 'no-image-asked-for', 'illegal:undefined/name-that-nearly-reads-as-a-number', 'predefined-data-name-in-a-constant', 'predefined-data-name-in-an-origin', 'predefined-name-given-twice', 'predefined-name-given-once',
+        'predefined-name:constant-twice-same-value', 'predefined-name:constant-and-data', 'predefined-name:data-twice']}
 
     def build(self, rng, illegal, mute_refs=None, zero_refs=None, join_p=0.15, via_p=0.25, pre_p=0.35):
         nfiles = rng.choice([1, 1, 2, 2, 3, 4])
@@ -573,6 +575,7 @@ class C06(core.Check):
 
     def cases(self, tier, seed):
         yield from self.shadow_cases()
+        yield from self.predefined_twice_cases()
         n_pre = 420
         n = 500 if tier == 'quick' else 9000
         made = 0
@@ -597,6 +600,33 @@ class C06(core.Check):
                 c['runs'][0]['argv'] = c['runs'][0]['argv'] + ['-n']
                 c['tags'] = sorted(set(c['tags']) | {'no-image-asked-for'})
             yield c
+
+    def predefined_twice_cases(self):
+        """names given by the configuration's predefined section live in the global scope like any other: one given twice
+        there, or given there and defined again in source, is a name defined twice"""
+        D = lambda a: {'name': 'K_PRE', 'address': a, 'value': 1, 'size': 2}    # noqa
+        V = {'constant-twice-same-value': {'constants': [{'name': 'K_PRE', 'value': 5}, {'name': 'K_PRE', 'value': 5}]},
+             'constant-twice': {'constants': [{'name': 'K_PRE', 'value': 5}, {'name': 'K_PRE', 'value': 6}]},
+             'constant-and-data': {'constants': [{'name': 'K_PRE', 'value': 5}], 'data': [D(0x600)]},
+             'data-twice': {'data': [D(0x600), D(0x610)]},
+             'once': {'constants': [{'name': 'K_PRE', 'value': 5}]},
+             'once-data': {'data': [D(0x600)]}}
+        for vn, pre in sorted(V.items()):
+            isa = make_isa([])
+            isa.setdefault('predefined', {}).update(json.loads(json.dumps(pre)))
+            for fmt in ('json', 'yaml'):
+                fn, text = isamod.render_isa(isa, fmt)
+                for sn, src, img in (('unused', ['.byte 1'], '01'), ('used', ['.byte K_PRE & 255'], '05' if vn == 'once' else '00'),
+                                     ('label-again', ['K_PRE:', '.byte 1'], None), ('constant-again', ['K_PRE = 3', '.byte 1'], None)):
+                    legal = vn.startswith('once') and img is not None
+                    kind = 'ACCEPT' if legal else 'REJECT'
+                    if legal and 'data' in pre:
+                        img = img + '00' * (0x600 - 1) + '0101'
+                    yield {'runs': [{'files': {fn: text, 'p.asm': '\n'.join(src) + '\n'}, 'argv': ['compile', '-c', fn, 'p.asm', '-o', 'out.bin'],
+                                     'probes': ['steps', 'labels'], 'step_limit': 600000}],
+                           'meta': {'kind': kind, 'why': 'predefined name ' + vn + ', ' + sn, 'image': img if legal else None,
+                                    'illegal': 'predefined-name-twice/' + (vn if not vn.startswith('once') else sn)},
+                           'tags': sorted({'expect:' + kind, 'files:1', 'predefined-name:' + vn, 'predefined-name-given-twice' if not vn.startswith('once') else 'predefined-name-given-once'})}
 
     def shadow_cases(self):
         """a local name inside an operand form, with a global of the same spelling minus the period: the local one is meant
